@@ -34,11 +34,13 @@ Fixpoint zlist_eqb (a b : list Z) : bool :=
 Definition tabulate2 (ny nx : Z) (m : Z -> Z -> Z) : list Z :=
   flat_map (fun y => map (fun x => m y x) (prange 0 nx)) (prange 0 ny).
 
-(* _poisson.py_func replayed on the recorded stream: final mask, status, and the number of draws *)
+(* _poisson.py_func replayed on the recorded stream: final mask, status, and the number of draws.
+   Fuel = length of the stream: every iteration of the outer loop consumes at least one draw (the number of
+   iterations is NOT bounded by the grid size: a sample may be accepted in a pixel that is already set). *)
 Definition chk_poisson (nx ny ma cy cx : Z) (rxl ryl : list float) (tpow tcos tsin : list (float * float))
            (stream : list (draw float)) (expect : list Z) (consumed : Z) : bool :=
   let P := FP tpow tcos tsin in
-  let '(st, rest, stat) := poisson_run (T:=P) nx ny ma (arr2 nx rxl) (arr2 nx ryl) (Z.to_nat (2 * nx * ny + 8)) cy cx stream in
+  let '(st, rest, stat) := poisson_run (T:=P) nx ny ma (arr2 nx rxl) (arr2 nx ryl) (length stream) cy cx stream in
   match stat with Finished => true | _ => false end &&
   zlist_eqb (tabulate2 ny nx (mask st)) expect &&
   (Z.of_nat (length stream) - Z.of_nat (length rest) =? consumed).
